@@ -32,7 +32,7 @@ PROPS = {
     },
     'C03': {
         'extra': [('pyvc-own(copy-before-write)', extras.cow_check), ('SET ordering', extras.set_order_check),
-                  ('memo-key', extras.memo_key_check)],
+                  ('memo-key', extras.memo_key_check), ('contract coverage', extras.contract_coverage_check)],
         'assumptions': [GRAPH, 'SET member ordering, SET OF sorting, named-bit trailing-zero removal and DEFAULT omission in '
                         'MembersType are not under contract yet (see DESIGN.md, known defects 3, 4, 19, 21)',
                         'time types and REAL contents are not under contract'],
